@@ -171,7 +171,8 @@ def run(env):
     mr = env.pmap(monitor, res.sessions, workload="impostors")
     from props.c13 import slice_text
     # release build (no debug assertions) and the std-feature build (std-only code paths), a slice each in quick
-    for b in ("fast", "checked-std"):
+    # ... and what a fuzzing harness links (cfg(fuzzing) on every crate of the graph: checks get weakened under it)
+    for b in ("fast", "checked-std", "cfg-fuzzing"):
         res_b = env.drive("impostors", slice_text(cw.text(), env.seed % 3, 3) if env.quick() else cw.text(), build=b)
         env.require_complete(res_b, "impostors/" + b)
         env.pmap(monitor, res_b.sessions, workload="impostors")
